@@ -146,10 +146,12 @@ def fetch(
             elif isinstance(cache, ObjectStorage):
                 updated = md5(fs_index)
 
-                def _on_error(failed, oid, exc):
+                failed_oids: list[str] = []
+
+                def _on_error(failed_oids, oid, exc):
                     if isinstance(exc, FileNotFoundError):
                         return
-                    failed += 1
+                    failed_oids.append(oid)
                     logger.debug(
                         "failed to transfer '%s'",
                         oid,
@@ -160,8 +162,9 @@ def fetch(
                     updated,
                     jobs=jobs,
                     callback=cb,
-                    on_error=partial(_on_error, failed),
+                    on_error=partial(_on_error, failed_oids),
                 )
+                failed += len(failed_oids)
             else:
                 old = build(cache.path, cache.fs)
                 filtered = _filter_changed(fs_index)
